@@ -46,7 +46,8 @@ pub fn run(ctx: &Ctx) -> bool {
         "C10" => c10::run(ctx),
         "C11" => {
             c11::run(ctx);
-            c11::run_churn(ctx)
+            c11::run_churn(ctx);
+            c11::run_pool_memory(ctx)
         }
         "C12" => c12::run(ctx),
         "C13" => {
